@@ -69,11 +69,16 @@ impl CommandParser {
         // Get line number from the function's span
         let line_number = func.sig.ident.span().start().line;
 
-        // Parse serde rename_all attribute from function attributes
+        // Parse serde rename_all attribute from function attributes, or the rename_all
+        // argument of the command macro itself
         let serde_rename_all = self
             .serde_parser
             .parse_struct_serde_attrs(&func.attrs)
-            .rename_all;
+            .rename_all
+            .or_else(|| {
+                self.serde_parser
+                    .parse_command_macro_rename_all(&func.attrs)
+            });
 
         Some(CommandInfo {
             name,
